@@ -62,9 +62,16 @@ def nudCorr (T : Table) (G : Grammar) (bps : List Nat) (t : Sx) : Bool :=
   | some (out, above) =>
     (List.range G.length).any (fun k => above.length + (k + 1) == G.length && nudOf T t == .pre out (bps.getD k 0))
 
-/-- a token of the fragment: it starts an expression as an atom or a prefix operator and
-`LeftBindingPower` knows it -/
-def okTok (T : Table) (t : Sx) : Bool := okNudB T t && (lbp T t).isSome
+/-- a plain (not dot-flagged) symbol whose `MunchLeft` is the field-access handler: the symbol `.`
+itself without its dot flag — the parser never builds it (`.` is lexed as a dot token) -/
+def plainField (T : Table) : Sx → Bool
+  | .sym n => ledOf T (.sym n) == .field
+  | .lab n => ledOf T (.lab n) == .field
+  | _ => false
+
+/-- a token of the fragment: it starts an expression as an atom or a prefix operator,
+`LeftBindingPower` knows it, and it is not the undotted `.` -/
+def okTok (T : Table) (t : Sx) : Bool := okNudB T t && (lbp T t).isSome && !plainField T t
 
 structure Corr (T : Table) (G : Grammar) (bps : List Nat) : Prop where
   pos : ∀ j, j < G.length → 0 < bps.getD j 0
@@ -236,7 +243,7 @@ theorem Frag.tail {T : Table} {G : Grammar} {t : Sx} {ts : List Sx} (h : Frag T 
 
 theorem Frag.nudFrag {T : Table} {G : Grammar} {ts : List Sx} (h : Frag T G ts) : fragList (okNudB T) ts = true :=
   (fragList_mono (p := okTok T) (q := okNudB T) (fun t ht => by
-    simp only [okTok, Bool.and_eq_true] at ht; exact ht.1)).2 ts h.1
+    simp only [okTok, Bool.and_eq_true] at ht; exact ht.1.1)).2 ts h.1
 
 theorem Frag.head {T : Table} {G : Grammar} {t : Sx} {ts : List Sx} (h : Frag T G (t :: ts)) : okTok T t = true :=
   fragTok_top _ t (fragList_mem _ _ h.1 t (by simp))
@@ -248,7 +255,7 @@ include hC in
 theorem Corr.colonNud : okNudB T (.sym ":") = true := by
   have := hC.colon
   simp only [okTok, Bool.and_eq_true] at this
-  exact this.1
+  exact this.1.1
 
 include hC in
 /-- the tokens of a selector are in the fragment -/
